@@ -154,6 +154,14 @@ def combined(acc, mods, y, m, d, h, mi, s, frac, off, offform, sep, ext, dform, 
                  want_parse)
 
 
+RANGE_ENDS = [
+    ("0001-01-01T00:00:00+01:00", (1, 1, 1, 0, 0, 0, 0), 3600), ("0001-01-01T05:29:59.5+05:30", (1, 1, 1, 5, 29, 59, 500000), 19800),
+    ("00010101T000000+0100", (1, 1, 1, 0, 0, 0, 0), 3600), ("0001-001T00:30:00+14:00", (1, 1, 1, 0, 30, 0, 0), 50400),
+    ("0001-W01-1T00:00:00+00:01", (1, 1, 1, 0, 0, 0, 0), 60),
+    ("9999-12-31T23:59:59-05:00", (9999, 12, 31, 23, 59, 59, 0), -18000), ("9999-12-31T23:59:59.999999-00:01", (9999, 12, 31, 23, 59, 59, 999999), -60),
+    ("9999-365T23:59:59-08", (9999, 12, 31, 23, 59, 59, 0), -28800), ("9999-W52-5T20:00:00-04:00", (9999, 12, 31, 20, 0, 0, 0), -14400),
+    ("99991231T120000-1200", (9999, 12, 31, 12, 0, 0, 0), -43200),
+]
 IMPOSSIBLE = [
     "2021-00-10", "2021-13-10", "2021-01-00", "2021-01-32", "2021-02-30", "2021-02-29", "2021-04-31", "1900-02-29",
     "20210010", "20211310", "20210100", "20210132", "20210230", "20210229", "20210431", "19000229",
@@ -229,6 +237,10 @@ def run_shard(shard):
                 acc.c["nontrivial"] += 1
         acc.sample({"offset_minutes": shard["o0"], "forms": ["+hh:mm", "+hhmm", "+hh"]})
     elif k == "impossible":
+        # well-formed strings whose UTC instant lies outside years 1..9999 while the denoted local value is inside
+        for s_, f_, off_ in RANGE_ENDS:
+            acc.c["states"] += 1
+            check_string(acc, mods, s_, ("datetime", f_, off_), "range-end-offset")
         for s in IMPOSSIBLE:
             acc.c["states"] += 1
             acc.c["nontrivial"] += 1
